@@ -311,9 +311,17 @@ fn tags(p: &Pat) -> Vec<&'static str> {
             Re::Rep(..) => None,
         }
     }
-    if let Some(i) = items.iter().position(|x| matches!(x, Re::Rep(y, mn, Some(mx), _) if matches!(**y, Re::Cls(Cls::Any)) && mx - mn > 200)) {
-        if i >= 1 && i + 1 < items.len() && items[..i].iter().any(|x| fixed_len(x).is_none()) { t.push("chain-piece-variable-length-bounded-gap"); }
+    // (the piece before a bounded gap: the items since the previous split point)
+    let splits = |x: &Re| matches!(x, Re::Rep(y, mn, mx, _) if matches!(**y, Re::Cls(Cls::Any)) && mx.map_or(true, |m| m - mn > 200));
+    let mut piece_start = 0usize;
+    let mut tagged = false;
+    for (i, x) in items.iter().enumerate() {
+        if i >= 1 && i + 1 < items.len() && splits(x) {
+            if matches!(x, Re::Rep(_, _, Some(_), _)) && items[piece_start..i].iter().any(|x| fixed_len(x).is_none()) { tagged = true; }
+            piece_start = i + 1;
+        }
     }
+    if tagged { t.push("chain-piece-variable-length-bounded-gap"); }
     // a `wide` regexp with a jump over the chaining threshold between two pieces: it is split into a
     // chain, and for a chain the gap is only a distance (known finding: the gap is not required to
     // consist of wide characters)
